@@ -305,6 +305,10 @@ def on_state(bd, hist_ops, col=None):
         col.violation(SIG.format(entry, "sampling-changed-buffer-state"), dict(history=hist))
 
 
+def DIVERGENCE_ENTRY(item):
+    return ("MultiTaskReplayBuffer(" + item["cls"] + ")") if item.get("mt") else str(item.get("cls"))
+
+
 def work(item, col):
     cfg = item
     from vlib import poison
